@@ -179,7 +179,7 @@ func (b *PBFS[Op]) Search() BFSResult {
 	if r0.Stop {
 		frontier = nil
 	}
-	const chunk = 20000
+	const chunk = 2000
 	for depth := 0; depth < b.MaxDepth && len(frontier) > 0; depth++ {
 		var next [][]Op
 		var jobs [][]Op
